@@ -22,28 +22,32 @@ AllListed == UNION {Listed(i) : i \in Ins}
 FirstKeys == {shape[i].keys[1] : i \in Ins}
 LastKeys == {shape[i].keys[Len(shape[i].keys)] : i \in Ins}
 
-P(mech, K, I, ht, scr, reg, sec, fresh) ==
-    [mech |-> mech, K |-> K, I |-> I, ht |-> ht, scr |-> scr, reg |-> reg, sec |-> sec, fresh |-> fresh]
+P(mech, K, I, ht, scr, reg, sec, fresh, ic) ==
+    [mech |-> mech, K |-> K, I |-> I, ht |-> ht, scr |-> scr, reg |-> reg, sec |-> sec, fresh |-> fresh, ic |-> ic]
 \* a pass supplying exactly the keys K through the behaviour's mechanism
-Plain(mech, K, I, ht, scr) == IF mech = "keychain" THEN P(mech, {}, I, ht, scr, K, Masters, TRUE)
-                              ELSE P(mech, K, I, ht, scr, {}, {}, TRUE)
+Plain(mech, K, I, ht, scr, ic) == IF mech = "keychain" THEN P(mech, {}, I, ht, scr, K, Masters, TRUE, ic)
+                                  ELSE P(mech, K, I, ht, scr, {}, {}, TRUE, ic)
 
 \* "ord": orderings.  One hash type and mechanism per behaviour; every single key (listed
 \* or wrong), some key pairs, all keys at once; every subset of the inputs asked for.
 OrdKeySets == {{k} : k \in Keys} \cup {AllListed} \cup (IF WithPairs THEN {FirstKeys \cup LastKeys} ELSE {})
-OrdPasses == {Plain(case.mech, K, I, case.ht, TRUE) : K \in OrdKeySets, I \in (SUBSET Ins) \ {{}}}
+\* The index collection: omitted / a set / a list / a tuple; and the explicitly EMPTY collection in
+\* each container type (with every key on offer: nothing may be signed).
+OrdIC(K, I) == IF I = Ins /\ Cardinality(K) % 2 = 1 THEN "none" ELSE IF Cardinality(I) = 1 THEN "list" ELSE "set"
+OrdPasses == {Plain(case.mech, K, I, case.ht, TRUE, OrdIC(K, I)) : K \in OrdKeySets, I \in (SUBSET Ins) \ {{}}}
+             \cup {Plain(case.mech, AllListed, {}, case.ht, TRUE, c) : c \in {"set", "list", "tuple"}}
 
 \* "prod": the product puzzle kind x key form x hash type x mechanism x coin, short behaviours:
 \* a first pass (all keys / one key per input; scripts supplied or not; keychain holding all
 \* or only master 1's private node), then a completing pass with everything.
 ProdFirst == {P(mech, IF mech = "keychain" THEN {} ELSE K, Ins, ht, scr,
-                IF mech = "keychain" THEN K \cup {NK} ELSE {}, sec, TRUE) :
+                IF mech = "keychain" THEN K \cup {NK} ELSE {}, sec, TRUE, "none") :
                 mech \in Mechs, K \in {AllListed, FirstKeys}, ht \in HashTypes, scr \in BOOLEAN,
                 sec \in {Masters, {1}}}
 ProdPasses == IF npass = 0 THEN {p \in ProdFirst : p.mech # "keychain" => p.sec = Masters}
               ELSE LET q == acts[1] IN
-                   {IF q.mech = "keychain" THEN P(q.mech, {}, Ins, q.ht, TRUE, AllListed, Masters, FALSE)
-                    ELSE P(q.mech, AllListed, Ins, q.ht, TRUE, {}, {}, TRUE)}
+                   {IF q.mech = "keychain" THEN P(q.mech, {}, Ins, q.ht, TRUE, AllListed, Masters, FALSE, "tuple")
+                    ELSE P(q.mech, AllListed, Ins, q.ht, TRUE, {}, {}, TRUE, "tuple")}
 
 \* "lim": large multisigs at the size limits.  Exhausting the orders of 20 keys is out of reach:
 \* each case is walked Walks times; walk 1 supplies everything at once, walk 2 the keys one at a
@@ -67,16 +71,34 @@ LimChoice == LET ok == {X \in LimKeySets : FewOutcomes(X)}
                   [] case.walk = 2 /\ todo # {} -> {Min(todo)}
                   [] case.walk = 3 /\ todo # {} -> {Max(todo)}
                   [] OTHER -> IF useful # {} /\ h % 6 # 0 THEN Nth(useful, h \div 6) ELSE Nth(ok, h \div 6)
-LimPasses == {Plain(case.mech, LimChoice, Ins, case.ht, TRUE)}
+LimPasses == {Plain(case.mech, LimChoice, Ins, case.ht, TRUE, IF npass % 2 = 0 THEN "none" ELSE "list")}
+
+\* "kc": histories of ONE long-lived keychain: paths registered, private nodes of masters added
+\* (one at a time or all), scripts added, and signing passes that add nothing themselves - in every
+\* order.  A pass signs exactly what the keychain can resolve at that moment; a pass that finds
+\* nothing must not spoil a later one.
+LastIsSign == acts # <<>> /\ acts[Len(acts)].mech = "keychain"
+KcPasses == IF LastIsSign THEN {} ELSE {P("keychain", {}, Ins, case.ht, FALSE, {}, {}, FALSE, "none")}
+KcAddAlphabet == {[R |-> AllListed, M |-> {}, S |-> FALSE], [R |-> FirstKeys, M |-> {}, S |-> FALSE],
+                  [R |-> {}, M |-> {1}, S |-> FALSE], [R |-> {}, M |-> {2}, S |-> FALSE],
+                  [R |-> {}, M |-> {}, S |-> TRUE], [R |-> AllListed, M |-> Masters, S |-> TRUE],
+                  [R |-> AllListed, M |-> {1}, S |-> TRUE], [R |-> AllListed, M |-> {}, S |-> TRUE]}
+RKcAdds == IF Mode # "kc" THEN {}
+           ELSE {a \in KcAddAlphabet : ~(a.R \subseteq kcReg /\ a.M \subseteq kcSec /\ (a.S => kcScr))}
 
 RPasses == CASE Mode = "ord" -> OrdPasses [] Mode = "prod" -> ProdPasses [] Mode = "lim" -> LimPasses
+             [] Mode = "kc" -> KcPasses
 
 \* what the harness compares: per input the signers with their signature bytes, and validity
 Allowed(p) == {[s |-> [i \in Ins |-> SignedWith(p, i, ch[i])],
                 v |-> [i \in Ins |-> Cardinality(ch[i]) >= Need(i)]] : ch \in PassChoices(p, NIn)}
 RecOf(p) == [mech |-> p.mech, K |-> p.K, I |-> p.I, ht |-> p.ht, scr |-> p.scr, reg |-> p.reg,
-             sec |-> p.sec, fresh |-> p.fresh, sup |-> Supplied(p), touch |-> Touchable(p),
+             sec |-> p.sec, fresh |-> p.fresh, ic |-> p.ic, sup |-> Supplied(p), touch |-> Touchable(p),
              allowed |-> Allowed(p)]
+\* a keychain edit, printed in the shape of a pass: the only state it allows is the current one
+RecOfAdd(a) == [mech |-> "kc_add", K |-> {}, I |-> {}, ht |-> 1, scr |-> a.S, reg |-> a.R, sec |-> a.M,
+                fresh |-> FALSE, ic |-> "set", sup |-> {}, touch |-> {},
+                allowed |-> {[s |-> signed, v |-> valid]}]
 
 RInit == /\ case \in Cases /\ ShapeOK(case.coin, case.shape) /\ InitWith(case.coin, case.shape)
          /\ acts = <<>> /\ outs = <<>> /\ alive = TRUE
@@ -87,7 +109,13 @@ RPass(p) == /\ alive /\ SignPass(p)
             /\ UNCHANGED case
             /\ PrintT(ToJson([k |-> "beh", coin |-> coin, shape |-> shape, acts |-> acts', outs |-> outs',
                               flags |-> PolicyFlags(coin), sigbyte |-> SigByte(coin, p.ht)]))
-RNext == \E p \in RPasses : RPass(p)
+RKcAdd(a) == /\ alive /\ KcAdd(a.R, a.M, a.S)
+             /\ acts' = Append(acts, RecOfAdd(a))
+             /\ outs' = Append(outs, [signed |-> signed, valid |-> valid])
+             /\ UNCHANGED <<case, alive>>
+             /\ PrintT(ToJson([k |-> "beh", coin |-> coin, shape |-> shape, acts |-> acts', outs |-> outs',
+                               flags |-> PolicyFlags(coin), sigbyte |-> SigByte(coin, case.ht)]))
+RNext == (\E p \in RPasses : RPass(p)) \/ (\E a \in RKcAdds : RKcAdd(a))
 RSpec == RInit /\ [][RNext]_rvars
 
 ----------------------------------------------------------------------------
@@ -124,6 +152,14 @@ LimCases(coins, mn, walks) ==
     {[coin |-> c, walk |-> w, shape |-> <<D(kd, x[1], [j \in 1..x[2] |-> j], f)>>,
       ht |-> HTSeq[((x[1] + x[2]) % 6) + 1], mech |-> MechSeq[(x[1] % 3) + 1]] :
       c \in coins, kd \in MultiKinds, x \in mn, f \in Forms, w \in 1..walks}
+\* keychain histories: a 2-of-3 (or 3-of-3) multisig whose keys hang below both masters (keys 1, 3
+\* below master 1, key 2 below master 2) and a single-key input below master 2
+KcCases(coins) ==
+    {[coin |-> c, walk |-> 1,
+      shape |-> <<D(MSKinds[a], 2 + (a % 2), <<1, 2, 3>>, IF a = 2 THEN "u" ELSE "c"), Second[((2 * a) % 6) + 1]>>,
+      ht |-> HTSeq[a + 1], mech |-> "keychain"] : c \in coins, a \in 1..4}
+KcCasesQ == KcCases({"BTC"}) \cup {x \in KcCases({"BCH"}) : x.shape[1].kind = "ms_p2sh"}
+KcCasesT == KcCases({"BTC", "BTG", "LTC"}) \cup KcCases({"BCH"})
 \* one trivial behaviour per coin (the harness reads PolicyFlags(coin) from it)
 FlagCases == {[coin |-> c, walk |-> 1, shape |-> <<D("p2pkh", 1, <<1>>, "c")>>, ht |-> 1, mech |-> "lookup"] : c \in AllCoins}
 LimCasesQ == LimCases({"BTC"}, {<<15, 15>>, <<20, 20>>, <<9, 12>>, <<7, 7>>, <<8, 15>>, <<2, 16>>}, 3)
